@@ -89,7 +89,7 @@ prop(
     "C10",
     level="proof",
     design_ref="DESIGN.md section 3, C10",
-    groups=[(["./plugin/input/kafka"], r"^(assembleSourceID|disassembleSourceID|assembleOffset|disassembleOffset|\(\*Plugin\)\.Commit|\(\*pconsumer\)\.consume)$")],
+    groups=[(["./plugin/input/kafka"], r"^(assembleSourceID|disassembleSourceID|assembleOffset|disassembleOffset|\(\*Plugin\)\.Commit|\(\*Plugin\)\.Start|\(\*pconsumer\)\.consume)$")],
     claim=(
         "Packing clauses of C10, for all topic indices / offsets below 2^47 and partitions / leader epochs 0..65535: the four packing functions are verified with exact 64-bit bit-vector semantics "
         "(source id = index*2^16+partition, offset = recordOffset*2^16+epoch, both decode back exactly); consume hands every record to In with exactly that id/offset and the record's own value; "
@@ -97,7 +97,7 @@ prop(
     ),
     undecided=[
         "'never passes a record of that partition that has been neither acknowledged nor dropped': records of one partition are spread over all processors (UseSpread) and franz-go keeps the highest marked offset; whether a later record finishes first is a schedule, not a contract - NOT decided (and by reading it does not hold)",
-        "Start's idByTopic map (topic -> index) is a string-keyed Go map: map contents are not modelled, so 'Topics[idByTopic[t]] == t' is assumed (requires ti < len(Topics) in Commit)",
+        "Start's idByTopic map (topic -> index) is a string-keyed Go map whose contents are not modelled: that every stored pair (t, i) has Topics[i] == t is proved as an oracle on the map update in Start; that the consumer reads the same pair back is map semantics (trusted)",
         "leader epoch -1 (unknown) is outside the quantifier",
     ],
     assumptions=[
